@@ -8,12 +8,14 @@ use futures::{StreamExt as _, stream};
 use serde_json::{Value, json};
 use vh::{analysis::Analysis, evrec::Item, exec, oracles_trace, report::Tally, spec, world::{self, TW}};
 
-struct P(exec::LazyParser);
+/// Hands the prepared stream out once; cloneable, so that the whole `Cucumber` value is.
+#[derive(Clone)]
+struct P(std::rc::Rc<std::cell::RefCell<Option<exec::LazyParser>>>);
 impl Parser<()> for P {
     type Cli = cli::Empty;
     type Output = exec::LazyParser;
     fn parse(self, (): (), _: cli::Empty) -> exec::LazyParser {
-        self.0
+        self.0.borrow_mut().take().expect("parsed once")
     }
 }
 
@@ -40,12 +42,21 @@ fn single(seed: u64, idx: u64) -> Tally {
     // The facade's type depends on which hooks are set: one arm per combination.
     macro_rules! facade {
         ($r:expr) => {
-            Cucumber::<TW, P, (), _, Push, cli::Empty>::custom(P(parser), $r, sink.clone()).with_cli(opts).init_tracing()
+            Cucumber::<TW, P, (), _, Push, cli::Empty>::custom(P(std::rc::Rc::new(std::cell::RefCell::new(Some(parser)))), $r, sink.clone()).with_cli(opts).init_tracing()
         };
     }
+    // every 5th run runs a clone of the fully configured `Cucumber` value (the original is dropped)
+    let clone_facade = idx % 5 == 3;
     macro_rules! go {
         ($cuc:expr) => {{
-            let f: Pin<Box<dyn std::future::Future<Output = Push>>> = Box::pin($cuc.run(()));
+            let c = $cuc;
+            let f: Pin<Box<dyn std::future::Future<Output = Push>>> = if clone_facade {
+                let copy = c.clone();
+                drop(c);
+                Box::pin(copy.run(()))
+            } else {
+                Box::pin(c.run(()))
+            };
             f
         }};
     }
@@ -137,6 +148,7 @@ fn single(seed: u64, idx: u64) -> Tally {
     t.interleavings.insert(out.sched_hash);
     t.count("c20.runs_inside_an_outer_span", u64::from(outer));
     t.count("runs_configured_through_the_cucumber_facade", u64::from(through_facade));
+    t.count("runs_of_a_cloned_cucumber_value", u64::from(clone_facade));
     t.count("c20.deferred_in_span_logs_fired", out.qpoints.iter().filter(|q| q.decision.contains("deferred")).count() as u64);
     oracles_trace::c20(&an, &mut t, idx);
     // the same real run also feeds the runner oracles: this is the only workload
